@@ -565,3 +565,8 @@ package cache
 //@ ensures_ok result0 != nil && fresh(result0)
 //@ ensures_ok forall u: string :: (u in result0) == matchesAll(r, conditions, u)
 
+//@ func (*TableCache).Mapper group c15
+//@ modifies nothing
+//@ func (*TableCache).DatabaseModel group c15
+//@ modifies nothing
+
